@@ -794,7 +794,16 @@ impl ServiceGenerator<'_> {
                         async move {
                             match resp.await? {
                                 #response_ident::#camel_case_idents(msg) => ::core::result::Result::Ok(msg),
-                                _ => ::core::unreachable!(),
+                                // The peer chooses the response, so a response of another method's
+                                // type is reachable: report it instead of panicking in the caller.
+                                _ => ::core::result::Result::Err(::tarpc::client::RpcError::Server(
+                                    ::tarpc::ServerError::new(
+                                        ::std::io::ErrorKind::InvalidData,
+                                        <::std::string::String as ::core::convert::From<&str>>::from(
+                                            "the server sent a response of the wrong type for this request",
+                                        ),
+                                    ),
+                                )),
                             }
                         }
                     }
